@@ -216,7 +216,7 @@ func generatedPrintedForms(r *rng, n int) []string {
 		}
 		return b.String()
 	}
-	nodeSafe := []string{"a", "b", " ", "@", "[", "]", "^", ":", "/", "?", "_", ",", ";", "é", ".", "1", "-", "\"", "{", "="}
+	nodeSafe := []string{"a", "b", " ", "@", "[", "]", "^", ":", "/", "?", "_", ",", ";", "é", ".", "1", "-", "\"", "{", "=", "\\"}
 	var out []string
 	seen := map[string]bool{}
 	for len(out) < n {
@@ -236,7 +236,8 @@ func generatedPrintedForms(r *rng, n int) []string {
 			}
 		case 3:
 			ty, e1 := node.NewType("/t" + strings.ReplaceAll(word([]string{"a", "b", "/u", "1", "_", "-", "."}), "//", "/"))
-			id, e2 := node.NewID(word(nodeSafe) + "x")
+			// any ID NewID accepts: also one that ends with a backslash (C:\tmp\)
+			id, e2 := node.NewID(word(nodeSafe) + []string{"x", "", "\\", "x\\"}[r.intn(4)])
 			if e1 == nil && e2 == nil {
 				s = node.NewNode(ty, id).String()
 			}
